@@ -45,6 +45,7 @@ Record row := mkRow {
   ui : bool;
   uu : bool;
   urec : bool;
+  us : bool;
   di : bool;
   du : bool;
   drec : bool;
@@ -63,35 +64,36 @@ Record row := mkRow {
   closes : Z
 }.
 
-Definition set_ph (v : phase) (r : row) : row := mkRow (cid r) v (inc r) (ext r) (hsb r) (dlb r) (bfseen r) (xinit r) (xpex r) (fd r) (pe r) (ui r) (uu r) (urec r) (di r) (du r) (drec r) (dint r) (px r) (tu r) (td r) (uc r) (dc r) (reqs r) (cur r) (pi_some r) (pi_c r) (pi_h r) (tc r) (closes r).
-Definition set_inc (v : bool) (r : row) : row := mkRow (cid r) (ph r) v (ext r) (hsb r) (dlb r) (bfseen r) (xinit r) (xpex r) (fd r) (pe r) (ui r) (uu r) (urec r) (di r) (du r) (drec r) (dint r) (px r) (tu r) (td r) (uc r) (dc r) (reqs r) (cur r) (pi_some r) (pi_c r) (pi_h r) (tc r) (closes r).
-Definition set_ext (v : bool) (r : row) : row := mkRow (cid r) (ph r) (inc r) v (hsb r) (dlb r) (bfseen r) (xinit r) (xpex r) (fd r) (pe r) (ui r) (uu r) (urec r) (di r) (du r) (drec r) (dint r) (px r) (tu r) (td r) (uc r) (dc r) (reqs r) (cur r) (pi_some r) (pi_c r) (pi_h r) (tc r) (closes r).
-Definition set_hsb (v : N) (r : row) : row := mkRow (cid r) (ph r) (inc r) (ext r) v (dlb r) (bfseen r) (xinit r) (xpex r) (fd r) (pe r) (ui r) (uu r) (urec r) (di r) (du r) (drec r) (dint r) (px r) (tu r) (td r) (uc r) (dc r) (reqs r) (cur r) (pi_some r) (pi_c r) (pi_h r) (tc r) (closes r).
-Definition set_dlb (v : bool) (r : row) : row := mkRow (cid r) (ph r) (inc r) (ext r) (hsb r) v (bfseen r) (xinit r) (xpex r) (fd r) (pe r) (ui r) (uu r) (urec r) (di r) (du r) (drec r) (dint r) (px r) (tu r) (td r) (uc r) (dc r) (reqs r) (cur r) (pi_some r) (pi_c r) (pi_h r) (tc r) (closes r).
-Definition set_bfseen (v : bool) (r : row) : row := mkRow (cid r) (ph r) (inc r) (ext r) (hsb r) (dlb r) v (xinit r) (xpex r) (fd r) (pe r) (ui r) (uu r) (urec r) (di r) (du r) (drec r) (dint r) (px r) (tu r) (td r) (uc r) (dc r) (reqs r) (cur r) (pi_some r) (pi_c r) (pi_h r) (tc r) (closes r).
-Definition set_xinit (v : bool) (r : row) : row := mkRow (cid r) (ph r) (inc r) (ext r) (hsb r) (dlb r) (bfseen r) v (xpex r) (fd r) (pe r) (ui r) (uu r) (urec r) (di r) (du r) (drec r) (dint r) (px r) (tu r) (td r) (uc r) (dc r) (reqs r) (cur r) (pi_some r) (pi_c r) (pi_h r) (tc r) (closes r).
-Definition set_xpex (v : bool) (r : row) : row := mkRow (cid r) (ph r) (inc r) (ext r) (hsb r) (dlb r) (bfseen r) (xinit r) v (fd r) (pe r) (ui r) (uu r) (urec r) (di r) (du r) (drec r) (dint r) (px r) (tu r) (td r) (uc r) (dc r) (reqs r) (cur r) (pi_some r) (pi_c r) (pi_h r) (tc r) (closes r).
-Definition set_fd (v : bool) (r : row) : row := mkRow (cid r) (ph r) (inc r) (ext r) (hsb r) (dlb r) (bfseen r) (xinit r) (xpex r) v (pe r) (ui r) (uu r) (urec r) (di r) (du r) (drec r) (dint r) (px r) (tu r) (td r) (uc r) (dc r) (reqs r) (cur r) (pi_some r) (pi_c r) (pi_h r) (tc r) (closes r).
-Definition set_pe (v : bool) (r : row) : row := mkRow (cid r) (ph r) (inc r) (ext r) (hsb r) (dlb r) (bfseen r) (xinit r) (xpex r) (fd r) v (ui r) (uu r) (urec r) (di r) (du r) (drec r) (dint r) (px r) (tu r) (td r) (uc r) (dc r) (reqs r) (cur r) (pi_some r) (pi_c r) (pi_h r) (tc r) (closes r).
-Definition set_ui (v : bool) (r : row) : row := mkRow (cid r) (ph r) (inc r) (ext r) (hsb r) (dlb r) (bfseen r) (xinit r) (xpex r) (fd r) (pe r) v (uu r) (urec r) (di r) (du r) (drec r) (dint r) (px r) (tu r) (td r) (uc r) (dc r) (reqs r) (cur r) (pi_some r) (pi_c r) (pi_h r) (tc r) (closes r).
-Definition set_uu (v : bool) (r : row) : row := mkRow (cid r) (ph r) (inc r) (ext r) (hsb r) (dlb r) (bfseen r) (xinit r) (xpex r) (fd r) (pe r) (ui r) v (urec r) (di r) (du r) (drec r) (dint r) (px r) (tu r) (td r) (uc r) (dc r) (reqs r) (cur r) (pi_some r) (pi_c r) (pi_h r) (tc r) (closes r).
-Definition set_urec (v : bool) (r : row) : row := mkRow (cid r) (ph r) (inc r) (ext r) (hsb r) (dlb r) (bfseen r) (xinit r) (xpex r) (fd r) (pe r) (ui r) (uu r) v (di r) (du r) (drec r) (dint r) (px r) (tu r) (td r) (uc r) (dc r) (reqs r) (cur r) (pi_some r) (pi_c r) (pi_h r) (tc r) (closes r).
-Definition set_di (v : bool) (r : row) : row := mkRow (cid r) (ph r) (inc r) (ext r) (hsb r) (dlb r) (bfseen r) (xinit r) (xpex r) (fd r) (pe r) (ui r) (uu r) (urec r) v (du r) (drec r) (dint r) (px r) (tu r) (td r) (uc r) (dc r) (reqs r) (cur r) (pi_some r) (pi_c r) (pi_h r) (tc r) (closes r).
-Definition set_du (v : bool) (r : row) : row := mkRow (cid r) (ph r) (inc r) (ext r) (hsb r) (dlb r) (bfseen r) (xinit r) (xpex r) (fd r) (pe r) (ui r) (uu r) (urec r) (di r) v (drec r) (dint r) (px r) (tu r) (td r) (uc r) (dc r) (reqs r) (cur r) (pi_some r) (pi_c r) (pi_h r) (tc r) (closes r).
-Definition set_drec (v : bool) (r : row) : row := mkRow (cid r) (ph r) (inc r) (ext r) (hsb r) (dlb r) (bfseen r) (xinit r) (xpex r) (fd r) (pe r) (ui r) (uu r) (urec r) (di r) (du r) v (dint r) (px r) (tu r) (td r) (uc r) (dc r) (reqs r) (cur r) (pi_some r) (pi_c r) (pi_h r) (tc r) (closes r).
-Definition set_dint (v : bool) (r : row) : row := mkRow (cid r) (ph r) (inc r) (ext r) (hsb r) (dlb r) (bfseen r) (xinit r) (xpex r) (fd r) (pe r) (ui r) (uu r) (urec r) (di r) (du r) (drec r) v (px r) (tu r) (td r) (uc r) (dc r) (reqs r) (cur r) (pi_some r) (pi_c r) (pi_h r) (tc r) (closes r).
-Definition set_px (v : bool) (r : row) : row := mkRow (cid r) (ph r) (inc r) (ext r) (hsb r) (dlb r) (bfseen r) (xinit r) (xpex r) (fd r) (pe r) (ui r) (uu r) (urec r) (di r) (du r) (drec r) (dint r) v (tu r) (td r) (uc r) (dc r) (reqs r) (cur r) (pi_some r) (pi_c r) (pi_h r) (tc r) (closes r).
-Definition set_tu (v : bool) (r : row) : row := mkRow (cid r) (ph r) (inc r) (ext r) (hsb r) (dlb r) (bfseen r) (xinit r) (xpex r) (fd r) (pe r) (ui r) (uu r) (urec r) (di r) (du r) (drec r) (dint r) (px r) v (td r) (uc r) (dc r) (reqs r) (cur r) (pi_some r) (pi_c r) (pi_h r) (tc r) (closes r).
-Definition set_td (v : bool) (r : row) : row := mkRow (cid r) (ph r) (inc r) (ext r) (hsb r) (dlb r) (bfseen r) (xinit r) (xpex r) (fd r) (pe r) (ui r) (uu r) (urec r) (di r) (du r) (drec r) (dint r) (px r) (tu r) v (uc r) (dc r) (reqs r) (cur r) (pi_some r) (pi_c r) (pi_h r) (tc r) (closes r).
-Definition set_uc (v : bool) (r : row) : row := mkRow (cid r) (ph r) (inc r) (ext r) (hsb r) (dlb r) (bfseen r) (xinit r) (xpex r) (fd r) (pe r) (ui r) (uu r) (urec r) (di r) (du r) (drec r) (dint r) (px r) (tu r) (td r) v (dc r) (reqs r) (cur r) (pi_some r) (pi_c r) (pi_h r) (tc r) (closes r).
-Definition set_dc (v : bool) (r : row) : row := mkRow (cid r) (ph r) (inc r) (ext r) (hsb r) (dlb r) (bfseen r) (xinit r) (xpex r) (fd r) (pe r) (ui r) (uu r) (urec r) (di r) (du r) (drec r) (dint r) (px r) (tu r) (td r) (uc r) v (reqs r) (cur r) (pi_some r) (pi_c r) (pi_h r) (tc r) (closes r).
-Definition set_reqs (v : list N) (r : row) : row := mkRow (cid r) (ph r) (inc r) (ext r) (hsb r) (dlb r) (bfseen r) (xinit r) (xpex r) (fd r) (pe r) (ui r) (uu r) (urec r) (di r) (du r) (drec r) (dint r) (px r) (tu r) (td r) (uc r) (dc r) v (cur r) (pi_some r) (pi_c r) (pi_h r) (tc r) (closes r).
-Definition set_cur (v : curt) (r : row) : row := mkRow (cid r) (ph r) (inc r) (ext r) (hsb r) (dlb r) (bfseen r) (xinit r) (xpex r) (fd r) (pe r) (ui r) (uu r) (urec r) (di r) (du r) (drec r) (dint r) (px r) (tu r) (td r) (uc r) (dc r) (reqs r) v (pi_some r) (pi_c r) (pi_h r) (tc r) (closes r).
-Definition set_pi_some (v : bool) (r : row) : row := mkRow (cid r) (ph r) (inc r) (ext r) (hsb r) (dlb r) (bfseen r) (xinit r) (xpex r) (fd r) (pe r) (ui r) (uu r) (urec r) (di r) (du r) (drec r) (dint r) (px r) (tu r) (td r) (uc r) (dc r) (reqs r) (cur r) v (pi_c r) (pi_h r) (tc r) (closes r).
-Definition set_pi_c (v : bool) (r : row) : row := mkRow (cid r) (ph r) (inc r) (ext r) (hsb r) (dlb r) (bfseen r) (xinit r) (xpex r) (fd r) (pe r) (ui r) (uu r) (urec r) (di r) (du r) (drec r) (dint r) (px r) (tu r) (td r) (uc r) (dc r) (reqs r) (cur r) (pi_some r) v (pi_h r) (tc r) (closes r).
-Definition set_pi_h (v : bool) (r : row) : row := mkRow (cid r) (ph r) (inc r) (ext r) (hsb r) (dlb r) (bfseen r) (xinit r) (xpex r) (fd r) (pe r) (ui r) (uu r) (urec r) (di r) (du r) (drec r) (dint r) (px r) (tu r) (td r) (uc r) (dc r) (reqs r) (cur r) (pi_some r) (pi_c r) v (tc r) (closes r).
-Definition set_tc (v : Z) (r : row) : row := mkRow (cid r) (ph r) (inc r) (ext r) (hsb r) (dlb r) (bfseen r) (xinit r) (xpex r) (fd r) (pe r) (ui r) (uu r) (urec r) (di r) (du r) (drec r) (dint r) (px r) (tu r) (td r) (uc r) (dc r) (reqs r) (cur r) (pi_some r) (pi_c r) (pi_h r) v (closes r).
-Definition set_closes (v : Z) (r : row) : row := mkRow (cid r) (ph r) (inc r) (ext r) (hsb r) (dlb r) (bfseen r) (xinit r) (xpex r) (fd r) (pe r) (ui r) (uu r) (urec r) (di r) (du r) (drec r) (dint r) (px r) (tu r) (td r) (uc r) (dc r) (reqs r) (cur r) (pi_some r) (pi_c r) (pi_h r) (tc r) v.
+Definition set_ph (v : phase) (r : row) : row := mkRow (cid r) v (inc r) (ext r) (hsb r) (dlb r) (bfseen r) (xinit r) (xpex r) (fd r) (pe r) (ui r) (uu r) (urec r) (us r) (di r) (du r) (drec r) (dint r) (px r) (tu r) (td r) (uc r) (dc r) (reqs r) (cur r) (pi_some r) (pi_c r) (pi_h r) (tc r) (closes r).
+Definition set_inc (v : bool) (r : row) : row := mkRow (cid r) (ph r) v (ext r) (hsb r) (dlb r) (bfseen r) (xinit r) (xpex r) (fd r) (pe r) (ui r) (uu r) (urec r) (us r) (di r) (du r) (drec r) (dint r) (px r) (tu r) (td r) (uc r) (dc r) (reqs r) (cur r) (pi_some r) (pi_c r) (pi_h r) (tc r) (closes r).
+Definition set_ext (v : bool) (r : row) : row := mkRow (cid r) (ph r) (inc r) v (hsb r) (dlb r) (bfseen r) (xinit r) (xpex r) (fd r) (pe r) (ui r) (uu r) (urec r) (us r) (di r) (du r) (drec r) (dint r) (px r) (tu r) (td r) (uc r) (dc r) (reqs r) (cur r) (pi_some r) (pi_c r) (pi_h r) (tc r) (closes r).
+Definition set_hsb (v : N) (r : row) : row := mkRow (cid r) (ph r) (inc r) (ext r) v (dlb r) (bfseen r) (xinit r) (xpex r) (fd r) (pe r) (ui r) (uu r) (urec r) (us r) (di r) (du r) (drec r) (dint r) (px r) (tu r) (td r) (uc r) (dc r) (reqs r) (cur r) (pi_some r) (pi_c r) (pi_h r) (tc r) (closes r).
+Definition set_dlb (v : bool) (r : row) : row := mkRow (cid r) (ph r) (inc r) (ext r) (hsb r) v (bfseen r) (xinit r) (xpex r) (fd r) (pe r) (ui r) (uu r) (urec r) (us r) (di r) (du r) (drec r) (dint r) (px r) (tu r) (td r) (uc r) (dc r) (reqs r) (cur r) (pi_some r) (pi_c r) (pi_h r) (tc r) (closes r).
+Definition set_bfseen (v : bool) (r : row) : row := mkRow (cid r) (ph r) (inc r) (ext r) (hsb r) (dlb r) v (xinit r) (xpex r) (fd r) (pe r) (ui r) (uu r) (urec r) (us r) (di r) (du r) (drec r) (dint r) (px r) (tu r) (td r) (uc r) (dc r) (reqs r) (cur r) (pi_some r) (pi_c r) (pi_h r) (tc r) (closes r).
+Definition set_xinit (v : bool) (r : row) : row := mkRow (cid r) (ph r) (inc r) (ext r) (hsb r) (dlb r) (bfseen r) v (xpex r) (fd r) (pe r) (ui r) (uu r) (urec r) (us r) (di r) (du r) (drec r) (dint r) (px r) (tu r) (td r) (uc r) (dc r) (reqs r) (cur r) (pi_some r) (pi_c r) (pi_h r) (tc r) (closes r).
+Definition set_xpex (v : bool) (r : row) : row := mkRow (cid r) (ph r) (inc r) (ext r) (hsb r) (dlb r) (bfseen r) (xinit r) v (fd r) (pe r) (ui r) (uu r) (urec r) (us r) (di r) (du r) (drec r) (dint r) (px r) (tu r) (td r) (uc r) (dc r) (reqs r) (cur r) (pi_some r) (pi_c r) (pi_h r) (tc r) (closes r).
+Definition set_fd (v : bool) (r : row) : row := mkRow (cid r) (ph r) (inc r) (ext r) (hsb r) (dlb r) (bfseen r) (xinit r) (xpex r) v (pe r) (ui r) (uu r) (urec r) (us r) (di r) (du r) (drec r) (dint r) (px r) (tu r) (td r) (uc r) (dc r) (reqs r) (cur r) (pi_some r) (pi_c r) (pi_h r) (tc r) (closes r).
+Definition set_pe (v : bool) (r : row) : row := mkRow (cid r) (ph r) (inc r) (ext r) (hsb r) (dlb r) (bfseen r) (xinit r) (xpex r) (fd r) v (ui r) (uu r) (urec r) (us r) (di r) (du r) (drec r) (dint r) (px r) (tu r) (td r) (uc r) (dc r) (reqs r) (cur r) (pi_some r) (pi_c r) (pi_h r) (tc r) (closes r).
+Definition set_ui (v : bool) (r : row) : row := mkRow (cid r) (ph r) (inc r) (ext r) (hsb r) (dlb r) (bfseen r) (xinit r) (xpex r) (fd r) (pe r) v (uu r) (urec r) (us r) (di r) (du r) (drec r) (dint r) (px r) (tu r) (td r) (uc r) (dc r) (reqs r) (cur r) (pi_some r) (pi_c r) (pi_h r) (tc r) (closes r).
+Definition set_uu (v : bool) (r : row) : row := mkRow (cid r) (ph r) (inc r) (ext r) (hsb r) (dlb r) (bfseen r) (xinit r) (xpex r) (fd r) (pe r) (ui r) v (urec r) (us r) (di r) (du r) (drec r) (dint r) (px r) (tu r) (td r) (uc r) (dc r) (reqs r) (cur r) (pi_some r) (pi_c r) (pi_h r) (tc r) (closes r).
+Definition set_urec (v : bool) (r : row) : row := mkRow (cid r) (ph r) (inc r) (ext r) (hsb r) (dlb r) (bfseen r) (xinit r) (xpex r) (fd r) (pe r) (ui r) (uu r) v (us r) (di r) (du r) (drec r) (dint r) (px r) (tu r) (td r) (uc r) (dc r) (reqs r) (cur r) (pi_some r) (pi_c r) (pi_h r) (tc r) (closes r).
+Definition set_us (v : bool) (r : row) : row := mkRow (cid r) (ph r) (inc r) (ext r) (hsb r) (dlb r) (bfseen r) (xinit r) (xpex r) (fd r) (pe r) (ui r) (uu r) (urec r) v (di r) (du r) (drec r) (dint r) (px r) (tu r) (td r) (uc r) (dc r) (reqs r) (cur r) (pi_some r) (pi_c r) (pi_h r) (tc r) (closes r).
+Definition set_di (v : bool) (r : row) : row := mkRow (cid r) (ph r) (inc r) (ext r) (hsb r) (dlb r) (bfseen r) (xinit r) (xpex r) (fd r) (pe r) (ui r) (uu r) (urec r) (us r) v (du r) (drec r) (dint r) (px r) (tu r) (td r) (uc r) (dc r) (reqs r) (cur r) (pi_some r) (pi_c r) (pi_h r) (tc r) (closes r).
+Definition set_du (v : bool) (r : row) : row := mkRow (cid r) (ph r) (inc r) (ext r) (hsb r) (dlb r) (bfseen r) (xinit r) (xpex r) (fd r) (pe r) (ui r) (uu r) (urec r) (us r) (di r) v (drec r) (dint r) (px r) (tu r) (td r) (uc r) (dc r) (reqs r) (cur r) (pi_some r) (pi_c r) (pi_h r) (tc r) (closes r).
+Definition set_drec (v : bool) (r : row) : row := mkRow (cid r) (ph r) (inc r) (ext r) (hsb r) (dlb r) (bfseen r) (xinit r) (xpex r) (fd r) (pe r) (ui r) (uu r) (urec r) (us r) (di r) (du r) v (dint r) (px r) (tu r) (td r) (uc r) (dc r) (reqs r) (cur r) (pi_some r) (pi_c r) (pi_h r) (tc r) (closes r).
+Definition set_dint (v : bool) (r : row) : row := mkRow (cid r) (ph r) (inc r) (ext r) (hsb r) (dlb r) (bfseen r) (xinit r) (xpex r) (fd r) (pe r) (ui r) (uu r) (urec r) (us r) (di r) (du r) (drec r) v (px r) (tu r) (td r) (uc r) (dc r) (reqs r) (cur r) (pi_some r) (pi_c r) (pi_h r) (tc r) (closes r).
+Definition set_px (v : bool) (r : row) : row := mkRow (cid r) (ph r) (inc r) (ext r) (hsb r) (dlb r) (bfseen r) (xinit r) (xpex r) (fd r) (pe r) (ui r) (uu r) (urec r) (us r) (di r) (du r) (drec r) (dint r) v (tu r) (td r) (uc r) (dc r) (reqs r) (cur r) (pi_some r) (pi_c r) (pi_h r) (tc r) (closes r).
+Definition set_tu (v : bool) (r : row) : row := mkRow (cid r) (ph r) (inc r) (ext r) (hsb r) (dlb r) (bfseen r) (xinit r) (xpex r) (fd r) (pe r) (ui r) (uu r) (urec r) (us r) (di r) (du r) (drec r) (dint r) (px r) v (td r) (uc r) (dc r) (reqs r) (cur r) (pi_some r) (pi_c r) (pi_h r) (tc r) (closes r).
+Definition set_td (v : bool) (r : row) : row := mkRow (cid r) (ph r) (inc r) (ext r) (hsb r) (dlb r) (bfseen r) (xinit r) (xpex r) (fd r) (pe r) (ui r) (uu r) (urec r) (us r) (di r) (du r) (drec r) (dint r) (px r) (tu r) v (uc r) (dc r) (reqs r) (cur r) (pi_some r) (pi_c r) (pi_h r) (tc r) (closes r).
+Definition set_uc (v : bool) (r : row) : row := mkRow (cid r) (ph r) (inc r) (ext r) (hsb r) (dlb r) (bfseen r) (xinit r) (xpex r) (fd r) (pe r) (ui r) (uu r) (urec r) (us r) (di r) (du r) (drec r) (dint r) (px r) (tu r) (td r) v (dc r) (reqs r) (cur r) (pi_some r) (pi_c r) (pi_h r) (tc r) (closes r).
+Definition set_dc (v : bool) (r : row) : row := mkRow (cid r) (ph r) (inc r) (ext r) (hsb r) (dlb r) (bfseen r) (xinit r) (xpex r) (fd r) (pe r) (ui r) (uu r) (urec r) (us r) (di r) (du r) (drec r) (dint r) (px r) (tu r) (td r) (uc r) v (reqs r) (cur r) (pi_some r) (pi_c r) (pi_h r) (tc r) (closes r).
+Definition set_reqs (v : list N) (r : row) : row := mkRow (cid r) (ph r) (inc r) (ext r) (hsb r) (dlb r) (bfseen r) (xinit r) (xpex r) (fd r) (pe r) (ui r) (uu r) (urec r) (us r) (di r) (du r) (drec r) (dint r) (px r) (tu r) (td r) (uc r) (dc r) v (cur r) (pi_some r) (pi_c r) (pi_h r) (tc r) (closes r).
+Definition set_cur (v : curt) (r : row) : row := mkRow (cid r) (ph r) (inc r) (ext r) (hsb r) (dlb r) (bfseen r) (xinit r) (xpex r) (fd r) (pe r) (ui r) (uu r) (urec r) (us r) (di r) (du r) (drec r) (dint r) (px r) (tu r) (td r) (uc r) (dc r) (reqs r) v (pi_some r) (pi_c r) (pi_h r) (tc r) (closes r).
+Definition set_pi_some (v : bool) (r : row) : row := mkRow (cid r) (ph r) (inc r) (ext r) (hsb r) (dlb r) (bfseen r) (xinit r) (xpex r) (fd r) (pe r) (ui r) (uu r) (urec r) (us r) (di r) (du r) (drec r) (dint r) (px r) (tu r) (td r) (uc r) (dc r) (reqs r) (cur r) v (pi_c r) (pi_h r) (tc r) (closes r).
+Definition set_pi_c (v : bool) (r : row) : row := mkRow (cid r) (ph r) (inc r) (ext r) (hsb r) (dlb r) (bfseen r) (xinit r) (xpex r) (fd r) (pe r) (ui r) (uu r) (urec r) (us r) (di r) (du r) (drec r) (dint r) (px r) (tu r) (td r) (uc r) (dc r) (reqs r) (cur r) (pi_some r) v (pi_h r) (tc r) (closes r).
+Definition set_pi_h (v : bool) (r : row) : row := mkRow (cid r) (ph r) (inc r) (ext r) (hsb r) (dlb r) (bfseen r) (xinit r) (xpex r) (fd r) (pe r) (ui r) (uu r) (urec r) (us r) (di r) (du r) (drec r) (dint r) (px r) (tu r) (td r) (uc r) (dc r) (reqs r) (cur r) (pi_some r) (pi_c r) v (tc r) (closes r).
+Definition set_tc (v : Z) (r : row) : row := mkRow (cid r) (ph r) (inc r) (ext r) (hsb r) (dlb r) (bfseen r) (xinit r) (xpex r) (fd r) (pe r) (ui r) (uu r) (urec r) (us r) (di r) (du r) (drec r) (dint r) (px r) (tu r) (td r) (uc r) (dc r) (reqs r) (cur r) (pi_some r) (pi_c r) (pi_h r) v (closes r).
+Definition set_closes (v : Z) (r : row) : row := mkRow (cid r) (ph r) (inc r) (ext r) (hsb r) (dlb r) (bfseen r) (xinit r) (xpex r) (fd r) (pe r) (ui r) (uu r) (urec r) (us r) (di r) (du r) (drec r) (dint r) (px r) (tu r) (td r) (uc r) (dc r) (reqs r) (cur r) (pi_some r) (pi_c r) (pi_h r) (tc r) v.
 
 (* ---- vectors of global counters -------------------------------------------------------------------
    0 cn  ConnectionList size            1 hs  HandshakeManager size
@@ -120,7 +122,8 @@ Definition B (b : bool) : Z := if b then 1 else 0.
 
 Definition is_conn (r : row) : bool := match ph r with PConn => true | _ => false end.
 Definition is_hs (r : row) : bool := match ph r with PHs => true | _ => false end.
-Definition uq (r : row) : bool := ui r && negb (uu r).
+(* in the group's queued list: interested (queued flag), not unchoked and not snubbed *)
+Definition uq (r : row) : bool := ui r && negb (uu r) && negb (us r).
 Definition dq (r : row) : bool := di r && negb (du r).
 
 (* what a row contributes to each global counter *)
@@ -134,13 +137,14 @@ Definition tr_count (r : row) : Z := Z.of_nat (length (reqs r)) + (match cur r w
 
 Definition new_row (c : nat) (incoming e : bool) : row :=
   mkRow c PHs incoming e 0%N (negb incoming) false false false true true
-        false false false false false false false false false false false false [] CNone
+        false false false false false false false false false false false false false [] CNone
         (negb incoming) (negb incoming) (negb incoming) 0 0.
 
 (* ---- choke_queue::set_queued / set_not_queued with the slotConnection callback (receive_*_choke) ---- *)
 Definition up_set_queued (r : row) : row * vec :=
   if ui r || uu r then (r, vz) else
   let r1 := set_ui true r in
+  if us r then (r1, vz) else
   let d1 := d 6 1 +v d 7 1 in
   if urec r then (r1, d1) else
   (set_urec true (set_uu true r1),
@@ -149,10 +153,29 @@ Definition up_set_queued (r : row) : row * vec :=
 Definition up_set_not_queued (r : row) : row * vec :=
   if negb (ui r) then (r, vz) else
   let r1 := set_ui false r in
+  if us r then (r1, vz) else
   if uu r then
     (set_urec true (set_uu false r1),
      d 2 (-1) +v d 3 (-1) +v d 6 1 +v d 4 (-1) +v d 7 1 +v d 5 (-1) +v d 6 (-1) +v d 7 (-1))
   else (r1, d 6 (-1) +v d 7 (-1)).
+
+(* choke_queue::set_snubbed / set_not_snubbed on the upload queue (Peer::set_snubbed); the queued flag is kept *)
+Definition up_snub (r : row) : row * vec :=
+  if us r then (r, vz) else
+  let r1 := set_us true r in
+  if uu r then
+    (set_urec true (set_uu false r1),
+     d 2 (-1) +v d 3 (-1) +v d 6 1 +v d 4 (-1) +v d 7 1 +v d 5 (-1) +v d 6 (-1) +v d 7 (-1))
+  else if ui r then (r1, d 6 (-1) +v d 7 (-1))
+  else (r1, vz).
+Definition up_unsnub (r : row) : row * vec :=
+  if negb (us r) then (r, vz) else
+  let r1 := set_us false r in
+  if negb (ui r) then (r1, vz) else
+  let d1 := d 6 1 +v d 7 1 in
+  if urec r then (r1, d1) else
+  (set_urec true (set_uu true r1),
+   d1 +v d 2 1 +v d 6 (-1) +v d 3 1 +v d 4 1 +v d 7 (-1) +v d 5 1).
 
 Definition down_set_queued (r : row) : row * vec :=
   if di r || du r then (r, vz) else
@@ -237,11 +260,11 @@ Definition cleanup_row (r : row) : row * vec :=
   let dv :=
     d 17 (- (B (uc r) + B (dc r))) +v d 19 (- B (dc r)) +v
     d 2 (- B (uu r)) +v d 8 (- B (du r)) +v
-    (if uu r then d 5 (-1) +v d 3 (-1) +v d 4 (-1) else if ui r then d 6 (-1) +v d 7 (-1) else vz) +v
+    (if us r then vz else if uu r then d 5 (-1) +v d 3 (-1) +v d 4 (-1) else if ui r then d 6 (-1) +v d 7 (-1) else vz) +v
     (if du r then d 11 (-1) +v d 9 (-1) +v d 10 (-1) else if di r then d 12 (-1) +v d 13 (-1) else vz) +v
     d 14 (- B (px r)) +v d 18 (-1) +v d 15 (- B (tu r)) +v d 16 (- B (td r)) +v d 0 (-1) in
   (mkRow (cid r) PNone (inc r) (ext r) (hsb r) (dlb r) (bfseen r) (xinit r) (xpex r) false false
-         false false (urec r) false false (drec r) (dint r) false false false false false [] CNone
+         false false (urec r) false false false (drec r) (dint r) false false false false false [] CNone
          (pi_some r) false false (tc r - tr_count r) (closes r + 1), dv).
 
 (* ---- Handshake::destroy_connection ---------------------------------------------------------------------- *)
@@ -336,9 +359,11 @@ Definition leader_of (b : blk) : option nat :=
 (* ---- state ------------------------------------------------------------------------------------------------ *)
 Record st := mkSt { rows : list row; g : vec; blocks : list blk; active : bool; opened : bool; seeding : bool; rej : bool; pexact : bool;
                     maxc : Z (* ConnectionList::max_size *);
+                    hq : list N (* pieces whose chunk handle is held by the hash queue *);
+                    sockfull : bool (* SocketManager::can_open_socket(category_generic) is false *);
                     maxpex : Z (* DownloadInfo::max_size_pex: a tuning constant, set by SetMaxPex from the probed value *) }.
 
-Definition init (seed : bool) : st := mkSt [] vz [] true true seed false false 100 8.
+Definition init (seed : bool) : st := mkSt [] vz [] true true seed false false 100 [] false 8.
 
 Fixpoint upd (c : nat) (f : row -> row * vec) (l : list row) : list row * vec * bool :=
   match l with
@@ -357,11 +382,21 @@ Definition get_row (c : nat) (l : list row) : option row := find (fun r => Nat.e
 
 Definition with_row (c : nat) (f : row -> row * vec) (s : st) : st :=
   match upd c f (rows s) with
-  | (rs, dv, ok) => mkSt rs (g s +v dv) (blocks s) (active s) (opened s) (seeding s) (rej s || negb ok) (pexact s) (maxc s) (maxpex s)
+  | (rs, dv, ok) => mkSt rs (g s +v dv) (blocks s) (active s) (opened s) (seeding s) (rej s || negb ok) (pexact s) (maxc s) (hq s) (sockfull s) (maxpex s)
   end.
 Definition set_blocks (bl : list blk) (s : st) : st :=
-  mkSt (rows s) (g s) bl (active s) (opened s) (seeding s) (rej s) (pexact s) (maxc s) (maxpex s).
-Definition reject (s : st) : st := mkSt (rows s) (g s) (blocks s) (active s) (opened s) (seeding s) true (pexact s) (maxc s) (maxpex s).
+  mkSt (rows s) (g s) bl (active s) (opened s) (seeding s) (rej s) (pexact s) (maxc s) (hq s) (sockfull s) (maxpex s).
+Definition set_hq (l : list N) (s : st) : st :=
+  mkSt (rows s) (g s) (blocks s) (active s) (opened s) (seeding s) (rej s) (pexact s) (maxc s) l (sockfull s) (maxpex s).
+Definition set_sockfull (b : bool) (s : st) : st :=
+  mkSt (rows s) (g s) (blocks s) (active s) (opened s) (seeding s) (rej s) (pexact s) (maxc s) (hq s) b (maxpex s).
+(* Listen::event_read when SocketManager::open_event_or_cleanup refuses: the accepted descriptor is closed at once, no
+   Handshake, no table entry, no counter *)
+Definition refused_row (c : nat) (e : bool) : row :=
+  mkRow c PNone true e 0%N false false false false false false
+        false false false false false false false false false false false false false [] CNone
+        false false false 0 1.
+Definition reject (s : st) : st := mkSt (rows s) (g s) (blocks s) (active s) (opened s) (seeding s) true (pexact s) (maxc s) (hq s) (sockfull s) (maxpex s).
 
 Inductive op :=
 | Connect (c : nat) (incoming ext : bool)
@@ -374,7 +409,10 @@ Inductive op :=
 | Abort (c : nat)                              (* remote close / reset / timeout / error on c *)
 | Stop | Close | Remove | Start
 | PexTick                                       (* DownloadMain::do_peer_exchange switched PEX on (flag_pex_active) *)
-| SetMaxPex (n : Z).                           (* DownloadInfo::set_max_size_pex / the probed default *)
+| SetMaxPex (n : Z)
+| Snub (c : nat) | Unsnub (c : nat)           (* Peer::set_snubbed(true / false) *)
+| HashQueued (p : N)                           (* the last block of piece p arrived: its chunk handle sits in the hash queue *)
+| SockLimit (b : bool).                        (* the socket budget is / is no longer exhausted *)                           (* DownloadInfo::set_max_size_pex / the probed default *)
 
 (* the handshake reads the first message after the 68 bytes; which messages end the handshake phase *)
 Definition hs_msg (seed full : bool) (m : pmsg) (n len : N) (r : row) : row * vec :=
@@ -522,14 +560,15 @@ Definition do_stop (s : st) : st :=
   if active s then
     let (bl, dr) := stop_blocks (conn_ids (rows s)) (blocks s) in
     let (rs, dv) := upd_all stop_row (rows s) in
-    dec_tc_all dr (mkSt rs (g s +v dv) bl false (opened s) (seeding s) (rej s) (pexact s) (maxc s) (maxpex s))
+    dec_tc_all dr (mkSt rs (g s +v dv) bl false (opened s) (seeding s) (rej s) (pexact s) (maxc s) (hq s) (sockfull s) (maxpex s))
   else s.
 
-(* DownloadMain::close: TransferList::clear deletes every Block; what is left in them gives its peer reference back *)
+(* DownloadWrapper::close: HashQueue::remove hands every queued chunk back (receive_hash_done with hash == NULL releases the
+   handle); DownloadMain::close: TransferList::clear deletes every Block, what is left in them gives its peer reference back *)
 Definition do_close (s : st) : st :=
   let s1 := do_stop s in
   let s2 := dec_tc_all (flat_map (fun b => map fst (trs b)) (blocks s1)) s1 in
-  mkSt (rows s2) (g s2) [] false false (seeding s2) (rej s2) (pexact s2) (maxc s2) (maxpex s2).
+  mkSt (rows s2) (g s2) [] false false (seeding s2) (rej s2) (pexact s2) (maxc s2) [] (sockfull s2) (maxpex s2).
 
 Definition pmsg_step (c : nat) (m : pmsg) (n len : N) (s : st) : st :=
   match get_row c (rows s) with
@@ -568,8 +607,15 @@ Definition step (s : st) (o : op) : st :=
   | Connect c incoming e =>
       match get_row c (rows s) with
       | Some _ => reject s
-      | None => mkSt (rows s ++ [new_row c incoming e]) (g s +v d 1 1 +v d 18 1) (blocks s)
-                     (active s) (opened s) (seeding s) (rej s) (pexact s) (maxc s) (maxpex s)
+      | None =>
+          if sockfull s then
+            (if incoming then
+               mkSt (rows s ++ [refused_row c e]) (g s) (blocks s) (active s) (opened s) (seeding s) (rej s) (pexact s)
+                    (maxc s) (hq s) (sockfull s) (maxpex s)
+             else s)          (* HandshakeManager::add_outgoing: can_open_socket is false, nothing happens *)
+          else
+          mkSt (rows s ++ [new_row c incoming e]) (g s +v d 1 1 +v d 18 1) (blocks s)
+                     (active s) (opened s) (seeding s) (rej s) (pexact s) (maxc s) (hq s) (sockfull s) (maxpex s)
       end
   | HsBytes c n => with_row c (hs_bytes_row (pexact s) (nth 14 (g s) 0) (maxpex s) n) s
   | PeerMsg c m n len => pmsg_step c m n len s
@@ -596,16 +642,21 @@ Definition step (s : st) (o : op) : st :=
       let mine := filter (fun x => N.eqb (piece_of (bidx x)) p) (blocks s) in
       if forallb fin mine then
         dec_tc_all (flat_map (fun b => map fst (trs b)) mine)
-                   (set_blocks (filter (fun x => negb (N.eqb (piece_of (bidx x)) p)) (blocks s)) s)
+                   (set_blocks (filter (fun x => negb (N.eqb (piece_of (bidx x)) p)) (blocks s))
+                               (set_hq (filter (fun x => negb (N.eqb x p)) (hq s)) s))
       else reject s
   | Abort c => abort_conn c s
   | Stop => do_stop s
   | Close => do_close s
   | Remove => do_close s
-  | Start => if opened s then mkSt (rows s) (g s) (blocks s) true true (seeding s) (rej s) (pexact s) (maxc s) (maxpex s) else s
-  | SetMax n => mkSt (rows s) (g s) (blocks s) (active s) (opened s) (seeding s) (rej s) (pexact s) n (maxpex s)
-  | SetMaxPex n => mkSt (rows s) (g s) (blocks s) (active s) (opened s) (seeding s) (rej s) (pexact s) (maxc s) n
-  | PexTick => mkSt (rows s) (g s) (blocks s) (active s) (opened s) (seeding s) (rej s) true (maxc s) (maxpex s)
+  | Start => if opened s then mkSt (rows s) (g s) (blocks s) true true (seeding s) (rej s) (pexact s) (maxc s) (hq s) (sockfull s) (maxpex s) else s
+  | SetMax n => mkSt (rows s) (g s) (blocks s) (active s) (opened s) (seeding s) (rej s) (pexact s) n (hq s) (sockfull s) (maxpex s)
+  | SetMaxPex n => mkSt (rows s) (g s) (blocks s) (active s) (opened s) (seeding s) (rej s) (pexact s) (maxc s) (hq s) (sockfull s) n
+  | Snub c => with_conn c up_snub s
+  | Unsnub c => with_conn c up_unsnub s
+  | HashQueued p => set_hq (p :: hq s) s
+  | SockLimit b => set_sockfull b s
+  | PexTick => mkSt (rows s) (g s) (blocks s) (active s) (opened s) (seeding s) (rej s) true (maxc s) (hq s) (sockfull s) (maxpex s)
   end.
 
 Definition run (seed : bool) (ops : list op) : st := fold_left step ops (init seed).
